@@ -445,6 +445,11 @@ func execOp(h *gorm.DB, base *gorm.DB, op Op, panics *[]string, pmu *sync.Mutex)
 	case "fresh_missing_exec":
 		tx := h.Exec(fmt.Sprintf("UPDATE missing_%d SET name = ? WHERE id = ?", op.Par), "x", op.ID)
 		return done(tx, "")
+	case "fresh_row":
+		// DB.Row(): the never-issued text is prepared from QueryRowContext
+		var n int64
+		err := h.Model(d.New()).Where(fmt.Sprintf("id = ? AND %d = %d", op.Par, op.Par), op.ID).Select("val").Row().Scan(&n)
+		return OpResult{Err: errText(err), Rows: strconv.FormatInt(n, 10)}
 	case "fresh_find", "fresh_take", "fresh_update":
 		// a statement text that is NEW at this step (the tag op.Par is part of the text) and IDENTICAL
 		// for every goroutine at the same step; the bound values select the goroutine's own rows
@@ -1335,7 +1340,7 @@ func genFresh(r *lib.Rng, g int, sessionPrep bool, thorough bool) DBSpec {
 	kinds := make([]string, steps)
 	types := make([]int, steps)
 	for k := range kinds {
-		kinds[k] = lib.Pick(r, []string{"fresh_find", "fresh_take", "fresh_take", "fresh_update"})
+		kinds[k] = lib.Pick(r, []string{"fresh_find", "fresh_take", "fresh_take", "fresh_update", "fresh_row"})
 		types[k] = lib.Pick(r, []int{t1, t2})
 	}
 	for gi := 0; gi < g; gi++ {
